@@ -190,7 +190,7 @@ theorem segStep_rewrite {s : Seg.State} (inv : Seg.Inv s) (sm : small s = true) 
     (hp : (addr, d.length) ∈ s.pending) :
     segStep s (.rewrite addr d) ≠ .stop .panic ∧ ∀ s' o, segStep s (.rewrite addr d) = .ok (s', o) →
       o = .ok ∧ Seg.Inv s' ∧ small s' = true ∧ s'.pending = s.pending := by
-  have h := Seg.rewrite_spec inv addr d hp ((small_iff s).mp sm)
+  have h := Seg.rewrite_spec inv addr d hp
   unfold segStep
   have e : Seg.step s (.rewrite addr d) = Seg.rewrite s addr d := rfl
   rw [e]
